@@ -11,7 +11,7 @@ PROPERTY = "C07"
 LEVEL = "exploration"
 RACE_INTERPS = ["3.11", "3.12"]
 RULE = ("Blocked leg (CPython 3.9-3.12): Hypothesis-generated thread bodies of call depth 1..6 with 0-3 nested with blocks "
-        "per frame (single and multi-item, inside try/finally), blocked on an Event at the innermost level; oracle = shadow call "
+        "per frame (single and multi-item, inside try/finally), each level calling inward by a plain / returned / *args / **kwargs call, blocked on an Event at the innermost level or with the innermost level itself blocked in a C callable (lock.acquire, same four call forms); oracle = shadow call "
         "log: harness frames of extract(thread) equal it outermost first with contexts equal to each frame's managers, all "
         "frames equal the thread's f_back chain, threading internals hidden; unstarted / finished threads give no frames and no "
         "error. Racing leg (3.11, 3.12; guarded yield points): three scripted target threads plus Hypothesis-generated scripts (with / for / try-finally over gates) (nested and multi-item with "
@@ -40,7 +40,9 @@ APIS = ["thread", "ctx", "since", "inspect"]
 
 
 def bodies():
-    return st.lists(st.integers(0, 3), min_size=1, max_size=6)
+    # per level: [with-nesting shape 0..3, call form 0..9 (plain / returned / *args / **kwargs; 6..9: the innermost level
+    # blocks in a C callable by itself)]
+    return st.lists(st.tuples(st.integers(0, 3), st.integers(0, 9)).map(list), min_size=1, max_size=6)
 
 
 def scripts():
@@ -79,8 +81,12 @@ def check_blocked(ws, interps, levels, out):
         out.per_interp[interp] += 1
         if res["obs"]:
             viols.append({"desc": "%s on %s: %r" % (res["obs"][0]["kind"], interp, res["obs"][0]), "interp": interp})
-    out.note_case({"levels": levels}, len(levels) >= 2 and sum(levels) >= 2,
-                  classes=["blocked", "blocked.depth.%d" % len(levels)], n_eval=len(interps))
+    lv = [[x, 0] if isinstance(x, int) else x for x in levels]
+    cnames = ["plain", "ret", "star", "retstar", "kw", "retkw", "c_plain", "c_ret", "c_star", "c_retstar"]
+    classes = ["blocked", "blocked.depth.%d" % len(lv)] + ["blocked.call." + cnames[c if k == len(lv) - 1 or c < 6 else c - 6]
+                                                            for k, (_s, c) in enumerate(lv)]
+    out.note_case({"levels": levels}, len(lv) >= 2 and sum(x[0] for x in lv) >= 2,
+                  classes=sorted(set(classes)), n_eval=len(interps))
     return viols
 
 
